@@ -32,6 +32,7 @@ def perms {α : Type} : List α → List (List α)
 def step (st : KVS V) (line : String) : KVS V × Option String :=
   match words line with
   | ["kinit", sz] => ({ sz := sz.toNat?.getD 0, store := fun _ => (0, 0) }, none)
+  | ["krestart"] => (st, none)   -- the store is opened again on the same disk: nothing changes
   | ["kput", ps, "=>", r] =>
     match parsePairs ps with
     | none => (st, some "bad pairs")
